@@ -102,14 +102,24 @@ def join_score(ck):
         v = pa.value
         w = where(fn, pa.node)
         conds = [(c, tv) for c, tv, _ in pa.state.assumptions]
-        overlap = None               # truth of the excessive-overlap condition on this path, None when never tested
+        # truth of the excessive-overlap condition on this path (None when the path does not decide it): evaluated under the
+        # path's facts, so it does not matter whether the code tests it directly, negated, through a flag variable or one
+        # disjunct at a time
+        ov = T.specialize(T.as_bool(want_overlap), pa.facts, boolpos=True)
+        overlap = ov[1] if ov[0] == "c" and isinstance(ov[1], bool) else None
+
+        def atoms(c):
+            out = set()
+            for x in T.subterms(c):
+                if x[0] == "lt":
+                    out.add(x[1])
+                elif x[0] == "le":
+                    out.add(T.p_neg(x[1]))
+            return out
+        own_atoms = atoms(T.as_bool(want_overlap))
         foreign = []                 # conditions on the segments other than the overlap condition
         for c, tv in conds:
-            pc, pol = T.positive(c)
-            if pc == want_pos:
-                overlap = (tv == pol) == want_pol if want_pol else (tv != pol)
-                overlap = tv if (pol == want_pol) else (not tv)
-            elif mentions_segments(c):
+            if mentions_segments(c) and not (atoms(T.as_bool(c)) and atoms(T.as_bool(c)) <= own_atoms):
                 foreign.append(c if tv else T.mk_not(c))
         if v in _neg_inf_forms():
             n_inf += 1
